@@ -51,6 +51,9 @@ func pendingUnbondings(st *State, k int) {
 	case 2:
 		q2 := nd.IntRange("q2", "1", Pow30)
 		InstallUnbonding(st.E, 0, c1, []Entry{{0, 0, q1}, {1, 0, q2}})
+	case 4: // two undelegations from the same validator and denom in one block share the bucket
+		q2 := nd.IntRange("q2", "1", Pow30)
+		InstallUnbonding(st.E, 0, c1, []Entry{{0, 0, q1}, {0, 0, q2}})
 	case 3:
 		q2 := nd.IntRange("q2", "1", Pow30)
 		c2 := nd.TimeRange("c2", TLo, THi)
@@ -69,7 +72,7 @@ func boundIntervals(st *State, t1 time.Time, n int64) {
 func c01Step(id string, op Op, ps []Pos, o Opts, pending bool) {
 	pk := 0
 	if pending {
-		pk = nd.Choice("pending", 4)
+		pk = nd.Choice("pending", 5)
 	}
 	st := Build(ps, o)
 	pendingUnbondings(st, pk)
